@@ -368,6 +368,67 @@ def run(prog, check):
                     fmt_ok = c.value.rfind('%') > c.value.find('#') and c.value.count('#') == 1 and c.value.find('=') < c.value.find('#')
     check.ob('C14.R6', 'Model::description-behind-comment-sign', fmt_ok, 'sfc_models/models.py',
              'rows are formatted as `name = rhs  # description`' if fmt_ok else 'the description is not emitted behind a single comment sign', 'any description')
+    # free text (descriptions, long names) is never emitted on a comment-only line: the parser reads such lines for the
+    # section marker, so anything dynamic there can switch the section
+    import re as _re
+    for fn in prog.all_functions():
+        if fn.cls is None or fn.cls.name != 'Model':
+            continue
+        for c in ast.walk(fn.node):
+            if isinstance(c, ast.Constant) and isinstance(c.value, str) and _re.search(r'(^|\n)[ \t]*#[^\n]*(%[-0-9.]*[srd]|\{[^}]*\})', c.value):
+                par = getattr(c, '_parent', None)
+                if isinstance(par, ast.Expr):
+                    continue        # docstring
+                n6 += 1
+                check.saw(fn)
+                check.ob('C14.R6', '%s::no-dynamic-comment-line(%r)' % (fn.key, c.value[:30]), False, '%s:%d' % (fn.module.rel, c.lineno),
+                         'text supplied by the model (description / name) is written on a comment-only line of the emitted block: a '
+                         'description containing the word "exogenous" switches the parser into the exogenous section',
+                         'a long description containing the word exogenous')
+    # ---- R1 (cont.): every other place that splits an equation string at '=' does so on comment-free text ----------
+    from ..cfg import atomic_facts as _facts
+    for fn in prog.all_functions():
+        if fn.key == f.key or '/deprecated/' in fn.module.rel:
+            continue
+        sites = []
+        for c in ast.walk(fn.node):
+            if isinstance(c, ast.Call) and call_name(c) in ('split', 'partition', 'rpartition', 'rsplit', 'find', 'index') and c.args and \
+                    isinstance(c.args[0], ast.Constant) and c.args[0].value == '=' and isinstance(c.func, ast.Attribute):
+                sites.append((c, c.func.value))
+            elif isinstance(c, ast.Compare) and len(c.ops) == 1 and isinstance(c.ops[0], (ast.In, ast.NotIn)) and \
+                    isinstance(c.left, ast.Constant) and c.left.value == '=':
+                sites.append((c, c.comparators[0]))
+        if not sites:
+            continue
+        gfn = cfgmod.build(fn)
+        fsub = single_assign_subst(fn.node)
+        check.saw(fn)
+        for c, subj in sites:
+            st = c
+            while st is not None and not isinstance(st, ast.stmt):
+                st = getattr(st, '_parent', None)
+            nd = None
+            for cand in gfn.nodes:
+                if cand.stmt is st and (cand.kind != 'test' or any(x is c for x in ast.walk(cand.ast))):
+                    nd = cand
+                    break
+            clean = False
+            why = 'the text is split at "=" although it may still carry a trailing comment'
+            if nd is not None:
+                for test, outcome in gfn.conditions_at(nd):
+                    for _, v, e in _facts(test, outcome):
+                        if v is False and isinstance(e, ast.Compare) and len(e.ops) == 1 and isinstance(e.ops[0], ast.In) and \
+                                isinstance(e.left, ast.Constant) and e.left.value == '#' and unparse(e.comparators[0]) == unparse(subj):
+                            clean, why = True, 'reached only when the text contains no "#"'
+            r = subj
+            if isinstance(r, ast.Name) and r.id in fsub:
+                r = fsub[r.id]
+            if isinstance(r, ast.Subscript) and isinstance(r.slice, ast.Constant) and r.slice.value == 0 and isinstance(r.value, ast.Call) and \
+                    call_name(r.value) in ('split', 'partition') and r.value.args and getattr(r.value.args[0], 'value', None) == '#':
+                clean, why = True, 'the text before the first "#"'
+            n1 += 1
+            check.ob('C14.R1', '%s::split-at-equals-on-comment-free-text(%s)' % (fn.key, unparse(subj)), clean, '%s:%d' % (fn.module.rel, c.lineno), why,
+                     "a declaration 'T # tax rule: T = rate*W' (an '=' inside the comment)")
     # ---- R5 ----------------------------------------------------------------------------------------
     for n in ast.walk(loop):
         if isinstance(n, ast.Assign) and any(rhs_var in target_names(t) for t in n.targets):
